@@ -105,3 +105,106 @@ def _c10_extra():
 
 EXTRA["C10"] = _c10_extra
 
+
+
+# -------------------------------------------------------------------------------------------------
+# crop_to_bbox: numpy vector code, translated element-wise (every vector variable is read as its
+# component on one axis: bbox_coords -> coord, bbox_size -> size, np.array(data.shape) -> n).
+def _vec_expr(tr: ExprTr, node: ast.AST) -> str:
+    """Element-wise reading of a numpy vector expression."""
+    if isinstance(node, ast.Call) and isinstance(node.func, ast.Attribute) and node.func.attr == "copy" and not node.args:
+        return _vec_expr(tr, node.func.value)
+    if isinstance(node, ast.Call) and ast.unparse(node.func) in ("np.array", "np.asarray") and len(node.args) == 1:
+        return tr.int(node.args[0])
+    if isinstance(node, ast.UnaryOp) and isinstance(node.op, ast.USub):
+        return f"(-{_vec_expr(tr, node.operand)})"
+    if isinstance(node, ast.BinOp) and isinstance(node.op, (ast.Add, ast.Sub)):
+        op = "+" if isinstance(node.op, ast.Add) else "-"
+        return f"({_vec_expr(tr, node.left)} {op} {_vec_expr(tr, node.right)})"
+    return tr.int(node)
+
+
+def _bbox_build(which: str):
+    def build(k: Kernel, fn: ast.FunctionDef) -> str:
+        tr = ExprTr({"data.shape": "n"})
+        lets: list[str] = []
+        version: dict[str, int] = {}
+        comps: dict[str, ast.ListComp] = {}
+
+        def bind(name, rhs):
+            version[name] = version.get(name, 0) + 1
+            ident = name if version[name] == 1 else f"{name}_{version[name]}"
+            lets.append(f"let {ident} : Int := {rhs}")
+            tr.locals[name] = ident
+
+        for st in fn.body:
+            # bbox_coords, bbox_size = np.asarray(bbox[:ndim]), np.asarray(bbox[ndim:])
+            if (isinstance(st, ast.Assign) and isinstance(st.targets[0], ast.Tuple)
+                    and [ast.unparse(e) for e in st.targets[0].elts] == ["bbox_coords", "bbox_size"]):
+                vals = [ast.unparse(v).replace(" ", "") for v in st.value.elts]
+                if vals != ["np.asarray(bbox[:ndim])", "np.asarray(bbox[ndim:])"]:
+                    raise Untranslatable(f"unexpected unpacking of bbox: {vals}")
+                tr.binds["bbox_coords"] = "coord"
+                tr.binds["bbox_size"] = "size"
+                continue
+            if isinstance(st, (ast.Assign, ast.AnnAssign)) and isinstance(getattr(st, "targets", [getattr(st, "target", None)])[0], ast.Name):
+                tgt = st.targets[0].id if isinstance(st, ast.Assign) else st.target.id
+                if st.value is None:
+                    continue
+                if isinstance(st.value, ast.ListComp):
+                    comps[tgt] = st.value
+                    continue
+                if tgt in ("l_offset", "r_offset"):
+                    bind(tgt, _vec_expr(tr, st.value))
+                continue
+            # V[V < 0] = 0   (clamp)
+            if (isinstance(st, ast.Assign) and isinstance(st.targets[0], ast.Subscript)
+                    and isinstance(st.targets[0].value, ast.Name) and st.targets[0].value.id in ("l_offset", "r_offset")):
+                v = st.targets[0].value.id
+                cond = st.targets[0].slice
+                if not (isinstance(cond, ast.Compare) and ast.unparse(cond.left) == v):
+                    raise Untranslatable(f"unexpected masked assignment `{ast.unparse(st)}`")
+                c = tr.bool(cond)
+                bind(v, f"(if {c} then {tr.int(st.value)} else {tr.locals[v]})")
+                continue
+        name = {"region_lo": ("region_idx", 0), "region_hi": ("region_idx", 1),
+                "patch_lo": ("patch_idx", 0), "patch_hi": ("patch_idx", 1),
+                "l_offset": None, "r_offset": None}[which]
+        if name is None:
+            if which not in tr.locals:
+                raise Untranslatable(f"`{which}` not found")
+            return emit_def(k.name, k.params, lets, tr.locals[which])
+        comp = comps.get(name[0])
+        if comp is None:
+            raise Untranslatable(f"list comprehension `{name[0]}` not found")
+        # [slice(A, B) for i, j in zip(X, Y)]
+        gen = comp.generators[0]
+        if not (isinstance(comp.elt, ast.Call) and ast.unparse(comp.elt.func) == "slice" and len(comp.elt.args) == 2
+                and isinstance(gen.iter, ast.Call) and ast.unparse(gen.iter.func) == "zip" and len(gen.iter.args) == 2
+                and isinstance(gen.target, ast.Tuple) and len(gen.target.elts) == 2):
+            raise Untranslatable(f"unexpected comprehension `{ast.unparse(comp)}`")
+        i_name, j_name = (e.id for e in gen.target.elts)
+        lets2 = list(lets)
+        lets2.append(f"let {i_name} : Int := {_vec_expr(tr, gen.iter.args[0])}")
+        lets2.append(f"let {j_name} : Int := {_vec_expr(tr, gen.iter.args[1])}")
+        tr2 = ExprTr(dict(tr.binds))
+        tr2.locals = dict(tr.locals)
+        tr2.locals[i_name] = i_name
+        tr2.locals[j_name] = j_name
+        return emit_def(k.name, k.params, lets2, tr2.int(comp.elt.args[name[1]]))
+    return build
+
+
+BBOX = "direct/data/bbox.py"
+_bp = ["n", "coord", "size"]
+register("C10", [
+    Kernel("bbox_l_offset", BBOX, "crop_to_bbox", _bp, "(fun _ coord _ => Crop.bboxLOff coord)", _bbox_build("l_offset"), imports=CROP),
+    Kernel("bbox_r_offset", BBOX, "crop_to_bbox", _bp, "(fun n coord size => Crop.bboxROff n coord size)", _bbox_build("r_offset"), imports=CROP),
+    Kernel("bbox_region_lo", BBOX, "crop_to_bbox", _bp, "(fun _ coord _ => coord + Crop.bboxLOff coord)", _bbox_build("region_lo"), imports=CROP),
+    Kernel("bbox_region_hi", BBOX, "crop_to_bbox", _bp,
+           "(fun n coord size => max (coord + Crop.bboxLOff coord) (coord + size - Crop.bboxROff n coord size))",
+           _bbox_build("region_hi"), imports=CROP),
+    Kernel("bbox_patch_lo", BBOX, "crop_to_bbox", _bp, "(fun _ coord _ => Crop.bboxLOff coord)", _bbox_build("patch_lo"), imports=CROP),
+    Kernel("bbox_patch_hi", BBOX, "crop_to_bbox", _bp,
+           "(fun n coord size => max (Crop.bboxLOff coord) (size - Crop.bboxROff n coord size))", _bbox_build("patch_hi"), imports=CROP),
+])
